@@ -99,29 +99,109 @@ def integral(vals) -> bool:
     return all(float(v) == int(v) and abs(v) <= 10 for v in vals)
 
 
+def shape_as(shape, kind):
+    """the same shape in the forms a caller hands it over (round 4): tuple of Python ints (default), of numpy int64 /
+    int32 / uint8 scalars, a list, an integer ndarray (int64 / int32), a bare int for a single mode"""
+    shape = tuple(int(s) for s in shape)
+    if kind == "npint":
+        return tuple(np.int64(n) for n in shape)
+    if kind == "npint32":
+        return tuple(np.int32(n) for n in shape)
+    if kind == "npuint8" and max(shape, default=0) < 256:
+        return tuple(np.uint8(n) for n in shape)
+    if kind == "list":
+        return list(shape)
+    if kind == "array":
+        return np.array(shape, dtype=np.int64)
+    if kind == "array32":
+        return np.array(shape, dtype=np.int32)
+    if kind == "bare-int" and len(shape) == 1:
+        return shape[0]
+    return shape
+
+
+SUBS_DTYPES = ("int32", "int16", "int8", "uint8", "uint16", "uint32", "uint64")
+SPARSE_CTORS = ("plain", "agg", "coo", "nocopy-F", "nocopy-readonly", "nocopy-strided")
+DENSE_PRES = ("C", "strided", "strided-nocopy", "readonly-nocopy", "readonly", "flat+shape")
+
+
 def sp_of(shape, part) -> ttb.sptensor:
     """The sparse operand: stored nonzeros in stored order, values in the operand's dtype.  part['zsubs'] /
     part['zpos'] (derived-state cells only) list cells that are held as explicitly stored zeros and where they go in
-    the stored order; part['shapekind'] == 'npint' hands the shape over as numpy integers."""
+    the stored order; part['shapekind'] hands the shape over in another form (shape_as).  Round 4 (presentation):
+    part['subsdt'] = integer dtype of the subscript array the caller passes; part['ctor'] = how the tensor is made:
+    'plain' sptensor(subs, vals, shape); 'agg' sptensor.from_aggregator; 'coo' (two modes) through a
+    scipy.sparse.coo_matrix whose row / col / data arrays are handed to the constructor, as a caller converting a
+    SciPy matrix does; 'nocopy-*' sptensor(..., copy=False) on a Fortran-ordered / read-only / strided view."""
     shape = tuple(int(s) for s in shape)
     subs, vals = [list(x) for x in part["subs"]], [float(v) for v in part["vals"]]
     for z, pos in zip(part.get("zsubs", []), part.get("zpos", [])):
         subs.insert(min(pos, len(subs)), list(z)), vals.insert(min(pos, len(vals)), 0.0)
-    shp = tuple(np.int64(n) for n in shape) if part.get("shapekind") == "npint" else shape
+    shp = shape_as(shape, part.get("shapekind"))
     if not subs:
         return ttb.sptensor(shape=shp)
-    return ttb.sptensor(np.array(subs, dtype=int).reshape(len(subs), len(shape)),
-                        np.array(vals, dtype=float).astype(part_dtype(part)).reshape(-1, 1), shp)
+    sa = np.array(subs, dtype=int).reshape(len(subs), len(shape))
+    va = np.array(vals, dtype=float).astype(part_dtype(part)).reshape(-1, 1)
+    sd = part.get("subsdt")
+    if sd is not None and max(shape) - 1 <= np.iinfo(sd).max:
+        sa = sa.astype(sd)
+    ctor = part.get("ctor", "plain")
+    if ctor == "agg":
+        return ttb.sptensor.from_aggregator(sa, va, shp)
+    if ctor == "coo" and len(shape) == 2:
+        from scipy import sparse
+
+        M = sparse.coo_matrix((va[:, 0], (sa[:, 0], sa[:, 1])), shape=shape)
+        return ttb.sptensor(np.vstack((M.row, M.col)).T, M.data[:, None], M.shape)
+    if ctor == "nocopy-F":
+        return ttb.sptensor(np.asfortranarray(sa), va, shp, copy=False)
+    if ctor == "nocopy-readonly":
+        sa.flags.writeable = False
+        va.flags.writeable = False
+        return ttb.sptensor(sa, va, shp, copy=False)
+    if ctor == "nocopy-strided":
+        bs = np.full((2 * sa.shape[0], 2 * sa.shape[1] + 1), 1, dtype=sa.dtype)
+        bv = np.full((3 * va.shape[0], 2), 7, dtype=va.dtype)
+        bs[::2, 1::2] = sa
+        bv[::3, 1:] = va
+        return ttb.sptensor(bs[::2, 1::2], bv[::3, 1:], shp, copy=False)
+    return ttb.sptensor(sa, va, shp)
 
 
 def tn_of(shape, part) -> ttb.tensor:
     """The dense operand in the operand's dtype; part['prov'] == 'grown': reached by growing a smaller tensor by
-    assignment (gen.build_tensor), which leaves a C-ordered buffer and numpy integers in `shape`."""
+    assignment (gen.build_tensor), which leaves a C-ordered buffer and numpy integers in `shape`.  Round 4:
+    part['dpres'] = the array the caller hands over: C-ordered, a strided view with a reversed axis (copied or
+    copy=False), read-only (copied or referenced), a flat vector plus shape; part['shapekind'] as for sp_of."""
     shape = tuple(int(s) for s in shape)
     A = dense_of(shape, part)
     if part.get("prov") == "grown":
         return gen.build_tensor(dict(shape=list(shape), data=np.ravel(A, order="F").tolist(), prov="grown"))
-    return ttb.tensor(np.asfortranarray(A.astype(part_dtype(part))), shape)
+    A = A.astype(part_dtype(part))
+    pres = part.get("dpres")
+    sk = part.get("shapekind")
+    if pres is None and sk is None:
+        return ttb.tensor(np.asfortranarray(A), shape)
+    shp = shape_as(shape, sk)
+    if pres == "C":
+        return ttb.tensor(np.ascontiguousarray(A), shp)
+    if pres in ("strided", "strided-nocopy"):
+        big = np.full(tuple(2 * n + 1 for n in shape), 9, dtype=A.dtype)
+        idx = (slice(None, 0, -2),) + tuple(slice(1, None, 2) for _ in shape[1:])
+        view = big[idx]
+        view[...] = A
+        return ttb.tensor(view, shp, copy=pres == "strided")
+    if pres in ("readonly", "readonly-nocopy"):
+        F = np.asfortranarray(A)
+        F.flags.writeable = False
+        return ttb.tensor(F, shp, copy=pres == "readonly")
+    if pres == "flat+shape":
+        return ttb.tensor(np.ravel(A, order="F"), shp)
+    return ttb.tensor(np.asfortranarray(A), shp)
+
+
+NP_SCALAR_KINDS = {"npint64": np.int64, "npint32": np.int32, "npint8": np.int8, "npuint8": np.uint8,
+                   "npfloat32": np.float32, "npbool": np.bool_, "pybool": bool}
 
 
 def scalar_of(case):
@@ -130,6 +210,8 @@ def scalar_of(case):
         return int(c)
     if k == "npfloat":
         return np.float64(c)
+    if k in NP_SCALAR_KINDS:
+        return NP_SCALAR_KINDS[k](c)
     return float(c)
 
 
@@ -366,6 +448,43 @@ def check_unchanged(ctx, name: str, *pairs) -> None:
     ctx.check(ok, f"{name}:operand-unchanged")
 
 
+class environment:
+    """round 4, process environment: the root logger at DEBUG with a handler that swallows everything (core.evaluate
+    disables logging up to WARNING; enabled here and restored on exit).  What is computed may not depend on it."""
+
+    def __init__(self, env):
+        self.env = env
+
+    def __enter__(self):
+        if self.env == "debug-logging":
+            import logging
+
+            root = logging.getLogger()
+            # (a StreamHandler may already be installed: logging.warning() calls basicConfig() on a bare root logger)
+            self.saved = (root.level, root.manager.disable, list(root.handlers))
+            root.handlers[:] = [logging.NullHandler()]
+            root.setLevel(logging.DEBUG)
+            logging.disable(logging.NOTSET)
+        return self
+
+    def __exit__(self, *exc):
+        if self.env == "debug-logging":
+            import logging
+
+            root = logging.getLogger()
+            root.handlers[:] = self.saved[2]
+            root.setLevel(self.saved[0])
+            logging.disable(self.saved[1])
+        return False
+
+
+def exact_state(X):
+    """bit-for-bit parameterisation of an operand: shape entries, and every state array with its dtype"""
+    from ._live import snapshot
+
+    return (tuple(int(n) for n in X.shape), [(a.dtype.str, a.shape, a.tobytes()) for a in snapshot(X)])
+
+
 def explicit_zero_mask(case):
     """positions at which an operand of the case holds an explicitly stored zero (None when there is none)"""
     cells = [tuple(int(i) for i in z) for k in ("a", "b") if k in case for z in case[k].get("zsubs", [])]
@@ -445,6 +564,8 @@ def pair_case(shape, pa: int, pb: int, rep: int, permute_b: bool = True) -> dict
     a, b = _part(ea), _part(eb)
     rng2 = random.Random(_seed(shape, pa, pb, rep, 7919))
     enum_dtype(rng2, a), enum_dtype(rng2, b)
+    rng3 = random.Random(_seed(shape, pa, pb, rep, 104729))
+    enum_subsdt(rng3, a), enum_subsdt(rng3, b)
     return dict(shape=list(shape), a=a, b=b)
 
 
@@ -453,6 +574,13 @@ def enum_dtype(rng: random.Random, part) -> None:
     vals = part["vals"]
     if vals and integral(vals) and rng.randrange(3):
         part["dtype"] = rng.choice(["int64", "int64", "int32", "uint8" if min(vals) > 0 else "int8"])
+
+
+def enum_subsdt(rng: random.Random, part) -> None:
+    """round 4: one sparse operand in four hands its subscripts over in a narrower / unsigned integer dtype (a third
+    PRNG stream: patterns, values, orders and value dtypes are unchanged; uint64 only in the */present cells)"""
+    if part["subs"] and rng.randrange(4) == 0:
+        part["subsdt"] = rng.choice(["int32", "int32", "int16", "uint8", "uint32"])
 
 
 def enum_plan(tier: str, base_reps: int):
@@ -494,6 +622,7 @@ def scalar_cases(tier: str):
                 ea = _stored(rng, ea)
                 a = _part(ea)
                 enum_dtype(random.Random(_seed(shape, pa, rep, -2)), a)
+                enum_subsdt(random.Random(_seed(shape, pa, rep, -3)), a)
                 for c in SCALARS:
                     yield dict(shape=list(shape), a=a, c=float(c),
                                ckind="int" if isinstance(c, int) else "float")
@@ -583,6 +712,12 @@ def expand(case):
             enum_dtype(rng, out["a"])
         if out["ckind"] == "int" and (not float(c).is_integer() or abs(c) > 10):
             out["ckind"] = "float"
+    # round 4 (drawn last, so that everything above is what it was): two large sparse operands in three hand their
+    # subscripts over as int32 / uint32 / int16 (every BIG_SHAPES mode fits), independently: blocked row matching
+    # then meets narrow and mixed subscript dtypes
+    for k in ("a", "b"):
+        if k in out and out[k]["subs"] and rng.randrange(3):
+            out[k]["subsdt"] = rng.choice(["int32", "int32", "uint32", "int16"])
     if len(_EXPANDED) > 16:
         _EXPANDED.clear()
     _EXPANDED[key] = out
@@ -599,8 +734,8 @@ def alias_turn(case, i: int) -> bool:
     """several live objects: which operator of a case gets the in-place-edit round (one of the thirteen, a fixed
     function of the case so that every operator gets its turn over the cases); never for large cases (a subscript
     assignment into a result with thousands of entries is quadratic in pyttb)"""
-    if ref.prod(case["shape"]) > 400:
-        return False
+    if ref.prod(case["shape"]) > 400 or case.get("present"):
+        return False  # (presentation cells: operands may be read-only views; the edit round runs in the other cells)
     na, nb = len(case["a"]["subs"]), (len(case["b"]["subs"]) if "b" in case else int(abs(case["c"]) * 2))
     if na == 0 or ("b" in case and nb == 0):
         return True  # an empty operand is where an operation may hand back the other one: every operator
